@@ -600,7 +600,26 @@ func (g *worldGen) fillSlots() {
 		f := g.r.Float64()
 		switch {
 		case f < g.o.Dangling:
-			toks = append(append([]string{}, toks...), "nowhere")
+			if s.kind == "schema" && g.r.Intn(2) == 0 {
+				// a pointer through a keyword the target schema does not carry: on a typed root the lookup does not fail,
+				// it yields nothing
+				if node, ok := oracle.EvalPointer(g.w.Docs[t.doc], oracle.TokensToPointer(toks)); ok {
+					// only through inline schemas (they carry a title): a pointer through a $ref holder designates nothing textually,
+					// while an expander that works in place may find what the holder was replaced with - not a well-formed reference
+					if nm, isObj := node.(map[string]interface{}); isObj && nm["title"] != nil {
+						for _, kw := range []string{"not", "additionalProperties", "additionalItems", "items", "xml", "externalDocs"} {
+							if _, has := nm[kw]; !has {
+								toks = append(append([]string{}, toks...), kw)
+								g.feature("fault.dangling-pointer(absent-keyword)")
+								break
+							}
+						}
+					}
+				}
+			}
+			if len(toks) == len(t.toks) {
+				toks = append(append([]string{}, toks...), "nowhere")
+			}
 			g.feature("fault.dangling-pointer")
 		case f < g.o.Dangling+g.o.IllTyped && s.kind == "schema":
 			g.feature("fault.ill-typed")
